@@ -33,6 +33,13 @@ static void verif_STEPread_error(STEPcomplex *, char, int, istream &, const char
 static void verif_ClearError(STEPcomplex *, int) { g_clear_calls++; }
 const char *ReadStdKeyword(istream &in, std::string &buf, int) { int c = in.peek(); while (c >= 0 && c != '(' && c != ')' && c != ' ') { buf += (char)in.get(); c = in.peek(); } return buf.c_str(); }
 #include "complex_extract.inc"
+/* ---- writer side ---- */
+static int g_w_n[2]; static STEPcomplex *g_w_part[2]; static int g_aw_calls; static STEPcomplex *g_aw_part[4]; static int g_aw_idx[4]; static const char *g_aw_sch[4];
+static int verif_nattrs(STEPcomplex *p) { return p == g_w_part[0] ? g_w_n[0] : g_w_n[1]; }
+static const char *verif_EntityName(STEPcomplex *p, const char *) { return p == g_w_part[0] ? "PA" : "PB"; }
+static void verif_attr_write(STEPcomplex *p, int i, ostream &out, const char *sch) { if (g_aw_calls < 4) { g_aw_part[g_aw_calls] = p; g_aw_idx[g_aw_calls] = i; g_aw_sch[g_aw_calls] = sch; } g_aw_calls++; out << "@"; }
+const char *StrToUpper(const char *w, std::string &s) { s = w; return s.c_str(); }
+#include "complex_write_extract.inc"
 #include "src/clutils/errordesc.cc"
 #include "verif.h"
 
@@ -86,4 +93,28 @@ extern "C" void h_complex_part_errors()
     Severity s = sc->STEPcomplex::STEPread(5, 0, set, in, 0, true, true);
     __CPROVER_assert(g_reads == 1, "the part is read");
     __CPROVER_assert(s <= (Severity)in_partsev, "C03 what went wrong inside a part of a complex instance is reported for the complex instance (its severity is at least as bad as the part's)");
+}
+
+/* C01: an externally mapped instance is written as #id=( PART(values) PART(values) ... ); - every part of the chain once, in chain order,
+ * under its own (upper-case) name, with all of its attributes in order, separated by commas */
+extern "C" void h_complex_STEPwrite()
+{
+    IN(int, in_id); IN(int, in_n0); IN(int, in_n1);
+    __CPROVER_assume(in_id >= 1 && in_id < 1000000 && in_n0 >= 0 && in_n0 <= 2 && in_n1 >= 0 && in_n1 <= 2);
+    for (int i = 0; i < 2; i++) { g_w_part[i] = (STEPcomplex *)malloc(sizeof(STEPcomplex)); new (&g_w_part[i]->p21Comment) std::string(); }
+    g_w_part[0]->sc = g_w_part[1]; g_w_part[1]->sc = 0; g_w_part[0]->STEPfile_id = in_id; g_w_n[0] = in_n0; g_w_n[1] = in_n1; g_aw_calls = 0;
+    ostream out; out._m_written = 0; const char *sch = "s";
+    g_w_part[0]->STEPcomplex::STEPwrite(out, sch, 1);
+    /* expected pieces */
+    const char *want[16]; int k = 0;
+    want[k++] = "#"; want[k++] = 0 /* the id */; want[k++] = "=(\n";
+    for (int p = 0; p < 2; p++) { want[k++] = p ? "PB" : "PA"; want[k++] = "("; int n = p ? in_n1 : in_n0; for (int i = 0; i < 2; i++) if (i < n) { want[k++] = "@"; if (i < n - 1) want[k++] = ","; } want[k++] = ")\n"; }
+    want[k++] = ");\n";
+    __CPROVER_assert(out._m_written == (unsigned long)k, "C01 a complex instance is written as: #id=( then every part, then ); - nothing more, nothing less");
+    int ok = 1;
+    for (int i = 0; i < 16; i++) if (i < k && want[i]) { if (out._m_logc[i] != 'S' || strcmp(out._m_logt[i], want[i]) != 0) ok = 0; }
+    __CPROVER_assert(ok, "C01 the parts of a complex instance are written in chain order, each as NAME(values) with commas between the values");
+    __CPROVER_assert(g_aw_calls == in_n0 + in_n1, "C01 every attribute of every part is written exactly once");
+    int ord = 1; for (int c = 0; c < 4; c++) if (c < g_aw_calls) { int p = c < in_n0 ? 0 : 1; int i = c < in_n0 ? c : c - in_n0; if (g_aw_part[c] != g_w_part[p] || g_aw_idx[c] != i || g_aw_sch[c] != sch) ord = 0; }
+    __CPROVER_assert(ord, "C01 the attributes are written part by part, in declaration order, for the caller's schema");
 }
